@@ -13,20 +13,24 @@ InDomain(in, obs) == in.toks = <<>> \/ in.toks[1] \notin {"comma", "rp"}
 
 \* "split": the entries directly beneath the top directory are given as the starting points, in order, instead of the
 \* directory itself: the same visit sequence without its first element (and -quit ends the run across starting points)
+\* "xfail" (-exec false {} +): to the expression a test that is true; the command line it collects fails when it is
+\* dispatched at the end of a starting point, so find's exit status is not 0 - and says nothing else
+Toks(in) == [i \in DOMAIN in.toks |-> IF in.toks[i] = "xfail" THEN "true" ELSE in.toks[i]]
+HasXfail(in) == \E i \in DOMAIN in.toks : in.toks[i] = "xfail"
 Split(in) == "split" \in DOMAIN in /\ in.split
 Run(in) ==
   IF Split(in)
-  THEN LET r == RefRun(in.toks, Tail(FilesOf(in))) IN [k \in DOMAIN r |-> <<r[k][1] + 1, r[k][2]>>]
-  ELSE RefRun(in.toks, FilesOf(in))
+  THEN LET r == RefRun(Toks(in), Tail(FilesOf(in))) IN [k \in DOMAIN r |-> <<r[k][1] + 1, r[k][2]>>]
+  ELSE RefRun(Toks(in), FilesOf(in))
 
 Conforms(in, obs) ==
   /\ "panic" \notin DOMAIN obs
-  /\ IF RefParse(in.toks).ok
-     THEN obs.exit = 0 /\ obs.run = Run(in)
+  /\ IF RefParse(Toks(in)).ok
+     THEN (HasXfail(in) \/ obs.exit = 0) /\ obs.run = Run(in)
      ELSE obs.exit # 0 /\ obs.diag /\ obs.run = <<>>
 
-Describe(in) == [ok |-> RefParse(in.toks).ok,
-                 run |-> IF RefParse(in.toks).ok THEN Run(in) ELSE <<>>]
+Describe(in) == [ok |-> RefParse(Toks(in)).ok,
+                 run |-> IF RefParse(Toks(in)).ok THEN Run(in) ELSE <<>>]
 
 Beyond(in) == FALSE
 INSTANCE TraceCheck
